@@ -180,9 +180,11 @@ pub enum Switch {
 pub struct Cfg<'a> {
     pub start: S,
     pub last_start_tag: Option<String>,
-    pub cdata_allowed: &'a dyn Fn() -> bool,
+    /// "adjusted current node is not in the HTML namespace" (shared with the tree stage)
+    pub cdata_allowed: std::rc::Rc<std::cell::Cell<bool>>,
     /// what the sink answers to a start tag (None = continue)
-    pub switch: &'a dyn Fn(&str) -> Option<Switch>,
+    pub switch: fn(&str) -> Option<Switch>,
+    pub _m: std::marker::PhantomData<&'a ()>,
 }
 
 fn ws(c: char) -> bool {
@@ -961,7 +963,7 @@ impl<'a> RTok<'a> {
                 let m3 = self.match_kw("[CDATA[", false);
                 if m3 == Some(true) {
                     self.pos += 7;
-                    if (self.cfg.cdata_allowed)() {
+                    if self.cfg.cdata_allowed.get() {
                         self.state = CdataSection;
                     } else {
                         self.comment = "[CDATA[".to_string();
